@@ -26,6 +26,38 @@ CLAIMED = {
             'Fault kinds: non-ndarray arguments, row-count mismatch, trace-length / word-count mismatch, DPA non-binary or float data, '
             'undeclared classes out of range, template word count, matching with wrong trace size. Memory-estimate rejection not injected.',
             '6/C16'),
+
+
+    'C03': ('TLA+ definitions (Stats.tla) enumerated exhaustively by TLC over small observation domains (StatsEnum.tla) with K=P lemmas; every '
+            'enumerated state and driver-proposed multi-dimensional datasets (StatsCases.tla) replayed on the real CPA/CPA-alternative/DPA distinguishers',
+            'TLC enumerates every multiset of 2..4(5) observations over a 4x4 grid and checks in each state that two formulations of Pearson agree, |r|<=1, the '
+            'formulas the code evaluates on its accumulators (incl. IEEE division, inf->nan) equal the definition, NaN exactly for constant columns / empty bit class and '
+            'never infinite; every state is executed on the three real distinguishers in both precisions and cycling dtypes; layout (word dims..., sample) checked on '
+            'multi-dimensional datasets against per-entry certificates computed by TLC.',
+            'Integer-valued inputs (the regime of the NaN clause); sqrt evaluated in Python on exact certificates; tolerance derived from data conditioning.', '6/C03'),
+    'C04': ('TLA+ definitions of F / NICV / SNR (Stats.tla) enumerated exhaustively by TLC (StatsEnum.tla) with K=P, order/extra-class invariance and SST=SSB+SSW lemmas; '
+            'states and driver-proposed unbalanced / automatic-class datasets replayed on the real ANOVA/NICV/SNR distinguishers',
+            'Every multiset of 2..4(5) observations over x in 0..3, v in {0,1,2,5} with declared, undeclared and always-empty classes: TLC proves on the bounded domain that the '
+            'three _compute_metric formulas equal the textbook definitions over non-empty classes and that no result is infinite; each state is executed on the real objects '
+            '(both precisions); 3..12 declared classes and automatic class sets with maxima in every threshold range are compared against exact rationals.',
+            'Exact rational definitions; float comparison within 64 eps x cancellation factor; LUT builder memoised.', '6/C04'),
+    'C12': ('TLA+ model of the class-set derivation and value->class lookup (Partitions.tla, PartitionsMC.tla: repaired threshold loop verified for every maximum, pinned loop '
+            'refuted), class-identity lemmas (ClassId.tla, StatsEnum.tla), history machine (Distinguisher.tla) with by-value state; replayed on real ANOVA/NICV/SNR/MIA/template objects and attacks',
+            'Exhaustive over first-batch maxima 0..300; every update/compute history over datasets with undeclared values and rotated / permuted / gapped class lists with the state '
+            'compared by value after each call; results for (order, permuted, superset, undeclared rows removed) against the specification value; template outputs permuted with the class list.',
+            'Template-DPA hypotheses restricted to declared values; class values within the lookup table range.', '6/C12'),
+    'C13': ('TLA+ specification of bin-by-comparison, joint histogram and MI term lists (Mia.tla, MiaCases.tla) and of the edge validation rule (MiaEdges.tla: exhaustive over integer edge '
+            'lists, repaired rule verified, pinned rule refuted); every edge list and driver-proposed datasets replayed on the real MIA distinguisher / attack / reverse',
+            'TLC enumerates every integer edge list of length <= 5 over 0..6 and proves acceptance <=> increasing and equally spaced; each list is offered at the four configuration points; '
+            'joint histograms of datasets containing every edge, mid-bin points, outsides, empty and undeclared classes equal the specification exactly (also float linspace edges with samples '
+            'one ulp around each edge, floats presented by rank); compute() equals the exact term list under math.log, zero under independence, non-negative.',
+            'ln is a primitive evaluated in Python on exact count ratios; floats reach TLC only through their order.', '6/C13'),
+    'C14': ('TLA+ definitions of class means, unbiased/pooled covariance, exact (pseudo-)inverse and Mahalanobis scores in rationals (Tpl.tla, TplCases.tla) with K=P and pseudo-inverse '
+            'lemmas checked by TLC; cases executed through the public TemplateAttack / TemplateDPAAttack on containers',
+            'For each driver-proposed building/matching set TLC checks PSD, A P A = A, P A P = P and that the code-shaped formulas equal the definitions (pinned single-trace rule refuted); '
+            'templates, pooled covariance, pseudo-inverse and static / DPA scores of the real attacks (several batch sizes, both precisions, class lists with gaps) equal the exact rationals; '
+            'run before build refused.',
+            'Trace length <= 2 (exact pseudo-inverse); covariance/scores claimed when every declared class has >= 2 building traces; building sets are sampled, not enumerated.', '6/C14'),
 }
 
 NOT_APPLICABLE = {}
